@@ -98,16 +98,66 @@ func checkSubshellUnwrapContexts(p *Prog, r *Result, si *syntaxInfo, rule string
 			if callee != stmtFn && callee != stmtsFn {
 				return true
 			}
+			recv := ast.Unparen(ast.Unparen(c.Fun).(*ast.SelectorExpr).X)
 			arg, ok := ast.Unparen(c.Args[1]).(*ast.SelectorExpr)
+			var argFd *ast.FuncDecl = fd
+			var argCall *ast.CallExpr = c
+			type site struct {
+				arg  *ast.SelectorExpr
+				fd   *ast.FuncDecl
+				call *ast.CallExpr
+			}
+			var more []site
 			if !ok {
-				return true
+				// the statements come in as a parameter (the body of the construct was moved into a helper): the
+				// field is named at the helper's call sites
+				id, isID := ast.Unparen(c.Args[1]).(*ast.Ident)
+				if !isID {
+					return true
+				}
+				idx, k := -1, 0
+				if fd.Type.Params != nil {
+					for _, f := range fd.Type.Params.List {
+						for _, nm := range f.Names {
+							if iinfo.ObjectOf(nm) == iinfo.ObjectOf(id) {
+								idx = k
+							}
+							k++
+						}
+					}
+				}
+				if idx < 0 {
+					return true
+				}
+				self, _ := iinfo.Defs[fd.Name].(*types.Func)
+				for _, cfd := range p.AllFuncDecls("interp") {
+					if cfd.Body == nil {
+						continue
+					}
+					ast.Inspect(cfd.Body, func(q ast.Node) bool {
+						cc, isCall := q.(*ast.CallExpr)
+						if !isCall || calleeOf(iinfo, cc) != self || idx >= len(cc.Args) {
+							return true
+						}
+						if se, isSel := ast.Unparen(cc.Args[idx]).(*ast.SelectorExpr); isSel {
+							if arg == nil {
+								arg, argFd, argCall = se, cfd, cc
+							} else {
+								more = append(more, site{se, cfd, cc})
+							}
+						}
+						return true
+					})
+				}
+				if arg == nil {
+					return true
+				}
 			}
 			fv := selectorField(iinfo, arg)
 			nt := namedOf(derefType(iinfo.TypeOf(arg.X)))
 			if fv == nil || nt == nil || nt.Obj().Pkg() != spkg.Types {
 				return true
 			}
-			recv := ast.Unparen(ast.Unparen(c.Fun).(*ast.SelectorExpr).X)
 			isolated := false
 			if id, ok := recv.(*ast.Ident); ok {
 				obj := iinfo.ObjectOf(id)
@@ -131,7 +181,13 @@ func checkSubshellUnwrapContexts(p *Prog, r *Result, si *syntaxInfo, rule string
 				isolated = defs > 0 && allSub
 			}
 			k := nt.Obj().Name() + "." + fv.Name()
-			execs[k] = append(execs[k], exec{isolated, opsAt(iinfo, fd.Body, exprString(arg.X), c.Pos()), p.Position(c.Pos())})
+			execs[k] = append(execs[k], exec{isolated, opsAt(iinfo, argFd.Body, exprString(arg.X), argCall.Pos()), p.Position(c.Pos())})
+			for _, m := range more {
+				if fv2, nt2 := selectorField(iinfo, m.arg), namedOf(derefType(iinfo.TypeOf(m.arg.X))); fv2 != nil && nt2 != nil && nt2.Obj().Pkg() == spkg.Types {
+					k2 := nt2.Obj().Name() + "." + fv2.Name()
+					execs[k2] = append(execs[k2], exec{isolated, opsAt(iinfo, m.fd.Body, exprString(m.arg.X), m.call.Pos()), p.Position(c.Pos())})
+				}
+			}
 			return true
 		})
 	}
